@@ -51,7 +51,7 @@ _g("C17", "Two structural clauses: reset() re-establishes every field new() init
 _g("C18", "Structural clauses: signature parity of every backend type's public API across build configurations (P1); consistent word-index / bit-offset splitting (P4); sibling functions of two backends with the same shape agree on the operands of every call (P5); masks, multiplexers, lookup scans and codec gates re-decided under each configuration (P3). Byte-identical arithmetic results are numeric and not decided.", eng="apiparity+maskdom+muxshape+gates", tech="API signature comparison and sibling-skeleton comparison across per-configuration MIR; re-run of structural rules per configuration", ref="DESIGN.md section 7.2", note="Assumes A1; tables/apiparity.json lists reviewed API exceptions. Configurations: quick = x64, w32, m51, clmul, +avx2/lzcnt; thorough adds zz32, no-std, aarch64, riscv64, i686.")
 _g("C20", "Structural core: control words are masks at every call site (K1) and predicates return masks (K2) by value-set abstract interpretation; every set_cond/cswap stores exactly MUX(ctl, own, other) for every limb, composites delegate field by field, select and set_condneg have the specified shape (K3); every constant-time lookup scans its whole table and does not truncate its index (K4). That iszero/equals decide mathematical equality is numeric and not decided.", eng="maskdom+muxshape", tech="value-set/interval/lane-mask abstract interpretation; Boolean truth-table equivalence of stored limb expressions; loop/stride coverage analysis", ref="DESIGN.md section 4", note="Assumes A1, A2; tables/masks.json lists the reviewed non-status functions and mask-by-range-invariant sites.")
 _K5 = (" Also K5 (limbcov): in the property's call trees no whole-value limb operation silently skips a limb (limbs read / written, returned scalars' "
-       "dependence, carry-chain index slips) -- a necessary condition, not the arithmetic.")
+       "dependence, carry-chain index slips, one call of a unanimous chain with two arguments transposed) -- a necessary condition, not the arithmetic.")
 for _p in ("C04", "C05", "C06", "C07", "C08", "C09", "C10", "C11", "C13", "C15", "C18", "C20"):
     CLAIMED[_p]["text"] += _K5
 for _p in ("C05", "C06", "C07", "C08", "C09", "C13", "C15", "C16"):
